@@ -189,18 +189,28 @@ def vol_float(k, unit):
     return float(Fraction(k) * unit)
 
 
+def _wid(w):
+    """[r, c] -> id; a string is a raw (possibly malformed) id passed through unchanged"""
+    if isinstance(w, str):
+        return w
+    r, c = w
+    if 0 <= r < 26:
+        return wid(r, c)
+    return "[" + f"{c + 1:02d}"  # a row beyond Z
+
+
 def shape_wells(a, present):
     """Shape argument of [r, c] wells -> python value of well ids."""
     if a["k"] == "s":
-        return wid(*a["x"])
+        return _wid(a["x"])
     if a["k"] == "l":
-        v = [wid(*w) for w in a["x"]]
+        v = [_wid(w) for w in a["x"]]
         if present == "ndarray":
             return np.array(v)
         if present == "tuple":
             return tuple(v)
         return v
-    v = [[wid(*w) for w in row] for row in a["x"]]
+    v = [[_wid(w) for w in row] for row in a["x"]]
     return np.array(v) if present != "list" else v
 
 
@@ -227,7 +237,13 @@ def shape_vols(a, unit, present, numkind="float"):
 
 
 def log_wells(a):
-    return {"k": a["k"], "x": a["x"]}
+    """raw id strings are logged as the invalid well [-1, -1]"""
+    bad = lambda w: [-1, -1] if isinstance(w, str) else list(w)
+    if a["k"] == "s":
+        return {"k": "s", "x": bad(a["x"])}
+    if a["k"] == "l":
+        return {"k": "l", "x": [bad(w) for w in a["x"]]}
+    return {"k": "m", "x": [[bad(w) for w in row] for row in a["x"]]}
 
 
 def log_vols(a):
